@@ -21,7 +21,7 @@ TECHNIQUE = (
     "permutations as edge paths, vs independent path interpreters"
 )
 LEVEL_TEXT = (
-    "Every tree over n<=5 (6 thorough) leaves under every admissible "
+    "Every tree over n<=6 leaves under every admissible "
     "traversal order is converted to linear and SSA paths and back (same "
     "node set, children before parents); every linear path for n<=5 and "
     "every generalised (1..3-ary, possibly incomplete) path for n<=4 goes "
@@ -31,11 +31,11 @@ LEVEL_TEXT = (
 )
 LEVEL_NOTE = "trusted: the ~60-line independent interpreters in this module"
 RULE = (
-    "trees: all (2n-3)!! for n in 2..5 (6 thorough) on representative "
+    "trees: all (2n-3)!! for n in 2..6 on representative "
     "networks; orders: None, dfs, surface_order, all (n-1)! rankings (n<=5), "
     "constant; linear paths: all prod C(k,2); generalised paths: all step "
     "sequences with arity 1..3; edge paths: all |inds|! permutations for "
-    "networks of U(3,3,2), U(4,2,2) and F with <=5 (6 thorough) indices. "
+    "networks of U(3,3,2), U(4,2,2) and F with <=6 indices. "
     "distinct_nontrivial = distinct (tree, order) / path / (network, "
     "permutation) cases with >=2 steps"
 )
@@ -175,7 +175,7 @@ NETS_FOR_TREES = {
 
 def units(tier, seed):
     us = []
-    top = 6 if tier == "thorough" else 5
+    top = 6  # (the thorough bound costs two seconds: both tiers use it)
     for n in range(2, top + 1):
         ntrees = [1, 3, 15, 105, 945][n - 2]
         cs = 8 if n >= 5 else 60
@@ -388,7 +388,7 @@ def check_edge(net, tier, res):
     tag, inputs, output, sd0 = net
     n = len(inputs)
     inds = U.used_inds(inputs)
-    lim = 6 if tier == "thorough" else 5
+    lim = 6
     if len(inds) > lim or n < 2:
         return
     sd = {ix: 2 for ix in inds}
